@@ -31,10 +31,8 @@ import (
 	kit "github.com/bluenviron/mediamtx/internal/verifkit"
 )
 
-const (
-	c08KeyICE    = "c08-deprecated-iceservers-append"
-	c08KeyLegacy = "c08-legacy-credentials-revalidate"
-)
+// c08KeyLegacy is the known finding behind which the search continues (see known_findings.json).
+const c08KeyLegacy = "c08-legacy-credentials-revalidate"
 
 // c08Known: a finding is excluded when listed as known by the driver, or (development / sensitivity
 // runs only) when named in $VERIF_C08_ASSUME_KNOWN.
@@ -422,7 +420,7 @@ func c08GenNonZeroInt(t *rapid.T, l string) any {
 // parameters produced by the planner (never by the free, type-directed pass)
 var c08GlobalPlanned = map[string]bool{
 	"PathDefaults": true, "OptionalPaths": true, "Paths": true,
-	"WebRTCICEServers": true, // deprecated list: its own class (known finding c08-deprecated-iceservers-append)
+	"WebRTCICEServers": true, // deprecated list in its own syntax: its own class
 }
 
 var c08PathPlanned = map[string]bool{
@@ -710,19 +708,15 @@ func c08GenConf(t *rapid.T) (*Conf, *c08Info) {
 
 	// ---- deprecated webrtcICEServers (own class)
 	if rapid.IntRange(0, 11).Draw(t, "g.iceDeprecated?") == 0 {
-		if c08Known(c08KeyICE) {
-			info.class("excluded:" + c08KeyICE)
-		} else {
-			n := rapid.IntRange(0, 3).Draw(t, "g.ice.n")
-			l := make([]string, n)
-			for i := range l {
-				l[i] = rapid.SampledFrom([]string{"stun:host:3478", "turn:user:pass:host:3478", "turns:u:p:h:5349", "stun:x"}).Draw(t, "g.ice.v")
-			}
-			c.WebRTCICEServers = &l
-			info.set = append(info.set, fmt.Sprintf("g.WebRTCICEServers=%q", l))
-			if n > 0 {
-				info.class("deprecated-webrtcICEServers")
-			}
+		n := rapid.IntRange(0, 3).Draw(t, "g.ice.n")
+		l := make([]string, n)
+		for i := range l {
+			l[i] = rapid.SampledFrom([]string{"stun:host:3478", "turn:user:pass:host:3478", "turns:u:p:h:5349", "stun:x"}).Draw(t, "g.ice.v")
+		}
+		c.WebRTCICEServers = &l
+		info.set = append(info.set, fmt.Sprintf("g.WebRTCICEServers=%q", l))
+		if n > 0 {
+			info.class("deprecated-webrtcICEServers")
 		}
 	}
 
